@@ -7,10 +7,12 @@ CLAIM = {
             'integer field can emit a minus sign, so the parser reached from the field\'s text constructor must test for one; the digit '
             'lookup of itoa stays inside its 71-character literal for every base it accepts (index interval from the dominating base '
             'guard), and the literal is the symmetric digit table; fast_atoi multiplies by exactly ten; modp_dtoa indexes its power table '
-            'only with a precision clamped to the table, and the table is 10^i.',
+            'only with a precision clamped to the table, and the table is 10^i; every rounding increment of the scaled fraction is followed by '
+            'the carry test on every path to the digit loop (sibling agreement of the two rounding branches); the float parser accepts the '
+            'characters the float renderer stores.',
     'note': 'The floating-point clauses (correct rounding at precision p, half-ulp parse accuracy) are NOT decided: no sound static '
             'argument over double arithmetic is in reach here. Trusted: clang CFG and constant folding, extractor.',
-    'technique': 'renderer/parser alphabet agreement, index interval from dominating guards, literal table checks',
+    'technique': 'renderer/parser alphabet agreement, index interval from dominating guards, literal table checks, must-pass-through under finite valuations (sibling rounding branches)',
 }
 UNITS = [WITNESS_FIELDS, 'runtime/modp_numtoa.c']
 EXPLANATION = (
@@ -18,7 +20,11 @@ EXPLANATION = (
     "input with '-' (or is a libc parser); R08.2 itoa: digit index = 35 + (tmp - value*base), |tmp - value*base| <= base-1 <= 35 under the "
     "dominating guard 2 <= base <= 36, literal has 71 characters, is symmetric about index 35 and maps k to the base-36 digit k; "
     "fast_atoi's step is (r<<3)+(r<<1)+digit; R08.3 every pow10_[prec] in modp_dtoa is reached only with prec in [0, len-1] (clamp), "
-    "pow10_[i] = 10^i. NOT decided: rounding and parse accuracy of the floating conversions.")
+    "pow10_[i] = 10^i; R08.4 every rounding increment of the scaled fraction in modp_dtoa reaches the fraction digits only through the carry "
+    "test against pow10_[prec] (for each precision 0..9, path search under that valuation), and the carry resets the fraction; R08.5 "
+    "fast_atof tests for every non-digit character modp_dtoa stores ('-', '.') and handles the exponent form of the sprintf fallback. "
+    "NOT decided: rounding of values that are not exactly representable (0.64535 at precision 4 is rendered 0.6454: the scaled product "
+    "rounds to an exact half — a floating-point fact outside a sound static argument) and parse accuracy.")
 
 
 def sign_rule(ctx, prog, rid):
@@ -51,6 +57,96 @@ def sign_rule(ctx, prog, rid):
               'the integer parser accepts the minus sign the renderer can emit',
               'itoa<int> renders negative values with a leading \'-\' but %s never tests for one: "-5" parses as %d'
               % (pc.callee_q, ((0 * 10 + (45 - 48)) * 10 + 5)))
+
+
+def float_rules(ctx, prog, md, prec, pow_uses):
+    """R08.4 every rounding increment of the scaled fraction is followed by the carry test before the fraction digits are
+    produced (sibling agreement between the rounding branches); R08.5 the float parser accepts every character class the float
+    renderer can store."""
+    cfg = md.cfg
+    # the scaled fraction: the local compared with pow10_[prec]
+    carry = []
+    for u in pow_uses:
+        par = u.parent
+        while par is not None and par.k in ('ImplicitCastExpr', 'ParenExpr', 'CStyleCastExpr'):
+            par = par.parent
+        if par is not None and par.k == 'BinaryOperator' and par.op in ('>=', '==', '>'):
+            other = [c for c in par.children if u not in list(c.walk())]
+            if other and other[0].strip(casts=True).k == 'DeclRefExpr':
+                carry.append((par, other[0].strip(casts=True).declid))
+    ctx.need(carry, 'modp_dtoa: no comparison of the scaled fraction with pow10_[prec] (carry test) found')
+    frac = carry[0][1]
+    tests = [t for t, d in carry if d == frac]
+    tv = set()
+    for t in tests:
+        tv.add(cfg.vertex_of(t))
+    incs = [(n, kind) for (n, kind, val) in q.local_defs(md, frac) if kind == 'incdec' or
+            (kind == 'assign' and n.k == 'CompoundAssignOperator' and n.op == '+=')]
+    incs = [(n, k) for (n, k) in incs if n.r.get('op', n.op) in ('++', '+=')]
+    # consuming reads: the fraction digits are produced from frac by % and /= in the digit loop
+    consume = []
+    for n in md.all_nodes():
+        if n.k in ('BinaryOperator', 'CompoundAssignOperator') and n.op in ('%', '/', '/=', '%=') and \
+                q.refers_to_decl(n.children[0], frac) and cfg.has_vertex(n):
+            consume.append(cfg.vertex_of(n))
+    ctx.need(incs and consume, 'modp_dtoa: rounding increments (%d) or fraction digit production (%d) not found' % (len(incs), len(consume)))
+    for i, (w, _) in enumerate(incs):
+        wv = cfg.vertex_of(w)
+        bad = None
+        for p in range(0, 10):
+            ok = q.valuation_edge_filter(md, {prec: p})
+            path = cfg.path(wv, lambda v: v in consume, avoid=tv, edge_ok=ok)
+            if path:
+                bad = (p, path)
+                break
+        ctx.check(bad is None, 'R08.4', 'modp_dtoa#carry-after-increment@%d' % i, w.loc,
+                  'rounding increment `%s`: every path to the fraction digits passes the carry test against pow10_[prec] (precisions 0..9)' % w.text(),
+                  'rounding increment `%s` reaches the fraction digits without the carry test `%s` (precision %s): a fraction of all nines '
+                  'rounds to 10^prec and is printed as a short digit string (0.95 at precision 1 -> "0.1")'
+                  % (w.text(), tests[0].text(), bad[0] if bad else '?'),
+                  cfg.describe_path(bad[1]) if bad else None)
+    # the carry test must reset the fraction and carry into the whole part
+    for i, t in enumerate(tests):
+        tvx = cfg.vertex_of(t)
+        blk = [b for b, last in cfg.block_last.items() if cfg.cond_node(b) is not None and t in list(cfg.cond_node(b).walk()) or
+               (cfg.cond_node(b) is not None and cfg.cond_node(b) == t)]
+        ctx.need(blk, 'carry test is not a branch condition')
+        tgt = q.edge_targets(cfg, blk[0], True)
+        reach = set()
+        for x in tgt:
+            reach |= cfg.reach_from(x) | {x}
+        fa = [n for (n, kind, val) in q.local_defs(md, frac) if kind == 'assign' and val is not None and val.strip(casts=True).value == 0]
+        zero_dep = any(cfg.vertex_of(n) in reach and any(c == cfg.cond_node(blk[0]) and way for (c, way) in cfg.controlling(cfg.vertex_of(n))) for n in fa)
+        ctx.check(zero_dep, 'R08.4', 'modp_dtoa#carry-resets@%d' % i, t.loc, 'on carry the fraction is reset to 0 under the carry test')
+    # ---------------- R08.5 alphabet: what the renderer stores vs. what the parser tests
+    stored = set()
+    for n in md.all_nodes():
+        if n.k == 'BinaryOperator' and n.op == '=' and n.children[0].strip(casts=True).k in ('UnaryOperator', 'ArraySubscriptExpr'):
+            v = n.children[1].strip(casts=True)
+            if v.k in ('CharacterLiteral', 'IntegerLiteral') and v.value is not None and v.value not in (0,):
+                stored.add(v.value if v.k == 'IntegerLiteral' else v.r.get('v'))
+    ctx.need(45 in stored and 46 in stored, "modp_dtoa: stores of '-' and '.' not found (stored literals %s)" % sorted(stored))
+    pf = prog.fns('FIX8::fast_atof')
+    ctx.need(pf, 'fast_atof not found')
+    pf = pf[0]
+    ctx.saw(pf)
+    tested = set()
+    for n in pf.all_nodes():
+        if n.k == 'BinaryOperator' and n.op in ('==', '!='):
+            for x in n.walk():
+                if x.k == 'CharacterLiteral':
+                    tested.add(x.r.get('v'))
+    for ch, name in ((45, 'minus sign'), (46, 'decimal point')):
+        ctx.check(ch in tested, 'R08.5', 'FIX8::fast_atof#accepts-%s' % name.replace(' ', '-'), pf.loc,
+                  "the float parser tests for the %s the renderer stores" % name,
+                  "modp_dtoa stores '%s' but fast_atof never compares its input with it" % chr(ch))
+    # exponent form: the renderer falls back to sprintf("%e") above its threshold; the parser must handle 'E'
+    fallback = [c for c in md.calls() if c.callee_qp in ('sprintf', 'snprintf')]
+    if fallback:
+        ctx.check(69 in tested or 101 in tested, 'R08.5', 'FIX8::fast_atof#accepts-exponent', pf.loc,
+                  'the float parser handles the exponent form the renderer falls back to')
+    else:
+        ctx.ok('R08.5', 'FIX8::fast_atof#accepts-exponent', pf.loc, 'renderer has no exponent fallback')
 
 
 def run(ctx):
@@ -126,5 +222,8 @@ def run(ctx):
         ctx.check(consts_ok and lo >= 0 and hi <= len(vals) - 1, 'R08.3', 'modp_dtoa#pow10-index@%d' % i, u.loc,
                   'pow10_[prec]: prec is either a clamp constant or an unmodified argument proven in [%s, %s] ⊆ [0, %d]' % (lo, hi, len(vals) - 1),
                   'pow10_[prec] can be reached with prec outside [0, %d] (unclamped range [%s, %s])' % (len(vals) - 1, lo, hi))
+    float_rules(ctx, prog, md, prec, uses)
     ctx.floor('R08.2', 4)
     ctx.floor('R08.3', 3)
+    ctx.floor('R08.4', 2)
+    ctx.floor('R08.5', 3)
